@@ -15,6 +15,14 @@ PROPS = {
         stub=["publish function (records, parks, fails or sleeps per plan)"],
         assumptions=COMMON_ASSUMPTIONS + ["values of concurrent (overlapping) Update calls are unordered: either may be the one finally published"],
     ),
+    "C01": dict(
+        harness="c01", pkg="blockstore", test="TestVerifC01", yield_pkgs=["blockstore"], level="exploration",
+        quick=dict(runs=16 * 2500, budget=90), thorough=dict(runs=16 * 50000, budget=1200),
+        rule="one case = options (WriteThrough, NoPrefix, identity store), a history of <=20 (quick) / <=40 (thorough) ops over 9 keys (empty block, CIDv0/v1-raw/v1-dag-pb aliases, blake2b, identity CIDs), a datastore fault plan (op errors before effect, enumeration error at position k, consumer-side context cancel after k keys) and a scheduling tape for the enumeration goroutine vs. its consumer; distinct = distinct event-log fingerprint; non-trivial = at least one context switch or injected fault",
+        real=["blockstore.NewBlockstore (+WriteThrough/NoPrefix), NewIdStore, dshelp key mapping, namespace wrapper, AllKeysChan goroutine"],
+        stub=["datastore (simds: snapshot enumeration, per-entry scheduling points, injected errors)"],
+        assumptions=COMMON_ASSUMPTIONS + ["an injected datastore error happens before the operation takes effect", "blocks are honest (bytes determined by the multihash), so 'last stored bytes' is unambiguous"],
+    ),
     "C02": dict(
         harness="c02", pkg="blockstore", test="TestVerifC02", yield_pkgs=["blockstore"], level="exploration",
         quick=dict(runs=16 * 2500, budget=90), thorough=dict(runs=16 * 60000, budget=1500),
